@@ -61,3 +61,26 @@ func H_C09_send() {
 		vp.Assert(err == nil, "C09.2 well-formed next packet is accepted")
 	}
 }
+
+// H_C09_pairs: (source, destination) pairs are independent -- also for destination names that are
+// not well-formed identifiers (the destination of a relayed packet is never validated).
+func H_C09_pairs() {
+	w, k, ctx := newWorld()
+	vp.Assume(len(w.clients) > 0)
+	relay := w.clients[0]
+	dst := vp.String("dst", 1, 3, "a/.")
+	other := vp.String("other.dst", 1, 3, "a/.")
+	vp.Assume(dst != other)
+	v2 := vp.Uint64("other.next")
+	vp.Assume(v2 >= 1 && v2 < 99)
+	k.SetNextSequenceSend(ctx, w.self, other, v2)
+	k.SetPacketCommitment(ctx, w.self, other, 1, []byte{7})
+	p := packettypes.Packet{Sequence: 1, Port: "n", SourceChain: w.self, DestinationChain: dst, RelayChain: relay, Data: []byte{1}}
+
+	err := k.SendPacket(ctx, p)
+
+	vp.Reach("first packet of a pair sent while another pair has history")
+	vp.Assert(err == nil, "C09.1 the first packet of a pair gets sequence 1 whatever other pairs have sent")
+	vp.Assert(k.GetNextSequenceSend(ctx, w.self, other) == v2, "C09.1 a send leaves the counters of other (source, destination) pairs alone")
+	vp.Assert(sameBytes(k.GetPacketCommitment(ctx, w.self, other, 1), []byte{7}), "C09.1 a send leaves the commitments of other pairs alone")
+}
